@@ -272,7 +272,12 @@ def run(chk):
               'elementpath/xpath31/_xpath31_functions.py', 'elementpath/xpath31/_xpath31_operators.py', 'elementpath/compare.py'):
         chk.record_source(f)
     chk.forbidden_scan(['C16'])
-    proved = chk.prove(['theories/C16/HOF.v', 'theories/C16/Model.v', 'theories/C16/Proofs.v', 'theories/C16/Run.v'], 'theories/C16/Properties.v')
+    import sys as _sys
+    _sys.path.insert(0, core.VERIF + '/harness')
+    import gen_c16
+    gen_c16.generate()          # T-data / source-shape facts regenerated from /repo on every run
+    chk.trusted.append('harness/shape.py: AST lookup of the statements mirrored by the hand model (Gen/C16Shape.v)')
+    proved = chk.prove(['theories/Gen/C16Shape.v', 'theories/C16/HOF.v', 'theories/C16/Model.v', 'theories/C16/Proofs.v', 'theories/C16/Run.v'], 'theories/C16/Properties.v')
     model_ok = True
     if not proved:
         try:
